@@ -73,6 +73,19 @@ add("C12", "cli", "exploration", "property-based testing of the binary with a wh
     "Random project trees x spokfiles declaring literal, named and glob outputs incl. ones that evaluate to '', '.', '..'; `spok --clean` must remove exactly the designated paths and .spok, never the spokfile, its directory or anything above; with a clean task only that task runs.",
     SB_NOTE + "When an output designates the project or above, aborting or skipping it are both accepted; outputs beside (not above) the project are not generated.", "DESIGN.md §4 C12")
 
+add("C09", "cli", "exploration", "property-based testing of the binary with a side-effect log as ground truth, followed by a second run (history of length two)",
+    "Generated spokfiles with failing commands at any position (statuses 1..255) under each of {plain, --quiet, --json, --force and combinations}: the invocation exits non-zero and names a failing task; the next unforced run never reports a failed task skipped, never succeeds, and re-executes a sole failing task.",
+    SB_NOTE + "Whether later commands/tasks still run after a failure is a don't-care; which of several failing tasks is named is free.", "DESIGN.md §4 C09")
+add("C10", "cli", "fault_enumeration", "fault injection by construction: SIGKILL from inside every task position, every byte prefix of the cache file, inside model-based histories checked against a reference cache model",
+    "Histories over the C01 universe with kill -9 of spok from inside any task of the run order and truncation of cache.json to prefixes (all byte lengths for two fixed programs in the thorough tier, every 7th in quick), each followed by continuations of edits/reverts and an unforced run: no wrongly skipped task ever, and after a fault either normal behaviour or an explicit error that mentions the cache (never a Go panic).",
+    SB_NOTE + "Process death only (no power loss / reordering of unsynced writes). Kill points are task positions and cache-file prefixes, not every machine instruction; the optional crash-point hook of DESIGN.md §1.7 is not used.", "DESIGN.md §4 C10")
+add("C19", "cli", "exploration", "property-based testing of the binary with a whole-HOME before/after snapshot against the write-set each action permits",
+    "Random trees x valid/invalid/absent spokfiles x every flag subset of {--show,--vars,--fmt,--init,--force,--quiet,--json,--debug} and task names, from root and nested cwd: every created/modified/removed path lies in the permitted set, --fmt output equals the in-process formatter, --init never overwrites and only appends to .gitignore.",
+    SB_NOTE + "Task commands are restricted to side-effect-free ones so that every change is spok's own.", "DESIGN.md §4 C19")
+add("C20", "cli", "exploration", "property-based testing of the binary: reports compared with a side-effect log and a skip model over action sequences",
+    "Generated spokfiles and action sequences: --json is exactly one document with the run's tasks in execution order, skipped flags, interpolated command text, exact stdout/stderr/status; --quiet prints nothing; --show / --vars list every task / variable once, sorted, with docstring / value; no arguments runs default or lists.",
+    SB_NOTE + "--quiet together with --json/--show is a don't-care; ANSI styling is stripped; table cells are compared after whitespace normalisation.", "DESIGN.md §4 C20")
+
 NOT_YET = {}
 
 def main():
